@@ -7,6 +7,7 @@ import (
 	"github.com/pdfcpu/pdfcpu/pkg/api"
 	"github.com/pdfcpu/pdfcpu/pkg/cli"
 	"github.com/pdfcpu/pdfcpu/pkg/pdfcpu"
+	"github.com/pdfcpu/pdfcpu/pkg/pdfcpu/color"
 	"github.com/pdfcpu/pdfcpu/pkg/pdfcpu/model"
 	"github.com/pdfcpu/pdfcpu/pkg/pdfcpu/types"
 )
@@ -185,6 +186,16 @@ func init() {
 	o.Aux = []string{"samples/bookmarks/bookmarkTree.json"}
 	single("annotations-remove", []string{"annotTest.pdf"}, func(e *Env) error {
 		return api.RemoveAnnotationsFile(e.In[0], e.Out, nil, nil, nil, conf(), false)
+	})
+	textAnn := func() model.AnnotationRenderer {
+		return model.NewTextAnnotation(*types.NewRectangle(0, 0, 100, 100), 0, "Text Annotation", "ID1", "", 0, &color.Gray, "Title1", nil, nil, "", "", 0, 0, 2, false, "Comment")
+	}
+	single("annotations-add", small, func(e *Env) error {
+		return api.AddAnnotationsFile(e.In[0], e.Out, []string{"1"}, textAnn(), conf(), false)
+	})
+	// incremental update: the annotation is appended as an increment to the written file
+	single("annotations-add-incr", small, func(e *Env) error {
+		return api.AddAnnotationsFile(e.In[0], e.Out, []string{"1"}, textAnn(), conf(), true)
 	})
 	o = single("form-fill", []string{"samples/form/demoSinglePage/english.pdf"}, func(e *Env) error {
 		return api.FillFormFile(e.In[0], e.Aux[0], e.Out, conf())
